@@ -28,15 +28,16 @@ Section Level.
   (* emptiness of element types (one level down) *)
   Variable is_empty : semtype -> res bool.
 
-  (* for k in len..neg_len: try the lists of exactly that length against the remaining negatives *)
-  Fixpoint shorter_loop (rec : list semtype -> semtype -> res bool) (shorter : list semtype) (items : semtype) (n : nat) : res bool :=
+  (* for k in len..neg_len: try the lists of exactly that length against the remaining negatives;
+     answers (a shorter list is a witness, the rest type turned out to be empty: there is no longer list) *)
+  Fixpoint shorter_loop (rec : list semtype -> semtype -> res bool) (shorter : list semtype) (items : semtype) (n : nat) : res (bool * bool) :=
     match n with
-    | O => Ok false
+    | O => Ok (false, false)
     | S n' =>
         do y <- rec shorter sem_never;
-        if y then Ok true else
+        if y then Ok (true, false) else
         do e <- is_empty items;
-        if e then Ok false else shorter_loop rec (shorter ++ [items]) items n'
+        if e then Ok (false, true) else shorter_loop rec (shorter ++ [items]) items n'
     end.
 
   (* the element that escapes through the rest type may sit at any position from len to the longest remaining prefix *)
@@ -66,8 +67,9 @@ Section Level.
     let neg_len := List.length (la_prefix nt) in
     if Nat.ltb len neg_len then
       if is_never items then rec prefix items else
-      do found <- shorter_loop rec prefix items (neg_len - len);
-      if found then Ok true else inhabited_main nt longest_rest rec (prefix ++ repeat items (neg_len - len)) items
+      do fr <- shorter_loop rec prefix items (neg_len - len);
+      if fst fr then Ok true else
+      if snd fr then Ok false else inhabited_main nt longest_rest rec (prefix ++ repeat items (neg_len - len)) items
     else if Nat.ltb neg_len len && is_never (la_items nt) then rec prefix items
     else inhabited_main nt longest_rest rec prefix items.
 
